@@ -82,6 +82,10 @@ def unit_kind(u):
         return "offset-dropped-symbol"
     if isinstance(e, sympy.Symbol):
         return "symbol:" + e.name if e.name in LUT else "symbol:prefixed-or-custom"
+    if any(isinstance(p, sympy.Pow) and p.exp.is_Rational and (abs(int(p.exp.p)) > 10**4 or int(p.exp.q) > 10**4) for p in sympy.preorder_traversal(e)):
+        # exponents only unit ARITHMETIC produces (roots of roots, sums of co-prime roots); a class of its own so that
+        # a defect there cannot hide behind (or be hidden by) a finding about ordinary compound units
+        return "long-exponent"
     return "compound"
 
 
@@ -228,17 +232,33 @@ def rat(text):
 
 
 def do_arith(prog):
+    operands = []  # the expression of every unit operand, for the model (c20.arith)
     try:
         u = None
         for op, arg in prog:
             if op == "unit":
                 u = Unit(arg)
+                operands.append(exact(u.expr))
             elif op == "mul":
-                u = u * Unit(arg)
+                v = Unit(arg)
+                operands.append(exact(v.expr))
+                u = u * v
             elif op == "div":
-                u = u / Unit(arg)
+                v = Unit(arg)
+                operands.append(exact(v.expr))
+                u = u / v
             elif op == "rdiv":
-                u = Unit(arg) / u
+                v = Unit(arg)
+                operands.append(exact(v.expr))
+                u = v / u
+            elif op == "mulpow":
+                v = Unit(arg[0])
+                operands.append(exact(v.expr))
+                u = u * v ** rat(arg[1])
+            elif op == "divpow":
+                v = Unit(arg[0])
+                operands.append(exact(v.expr))
+                u = u / v ** rat(arg[1])
             elif op == "powq":
                 u = u ** rat(arg)
             elif op == "powf":
@@ -253,7 +273,9 @@ def do_arith(prog):
                 raise ValueError(op)
     except BaseException as e:  # noqa: BLE001
         return {"r": "arith-raised", "exc": type(e).__name__}
-    return describe(u)
+    d = describe(u)
+    d["operands"] = operands
+    return d
 
 
 def do_spell(variants):
